@@ -282,7 +282,18 @@ def r_spawn_site(e, R):
             continue
         wl = _enclosing(e, n, ast.While)
         ok = False
-        if wl is not None:
+        if wl is None:
+            fl = _enclosing(e, n, ast.For)
+            it = fl.iter if fl is not None else None
+            if isinstance(it, ast.Call) and isinstance(it.func, ast.Name) and it.func.id == "range" and len(it.args) == 1 \
+                    and isinstance(it.args[0], ast.BinOp) and isinstance(it.args[0].op, ast.Sub):
+                l_, r_ = it.args[0].left, it.args[0].right
+                okf = isinstance(l_, ast.Attribute) and l_.attr == "_max_workers" and isinstance(r_, ast.Call) and isinstance(r_.func, ast.Name) \
+                    and r_.func.id == "len" and bool(e.objs(sf, r_.args[0]) & a.processes)
+                if okf:
+                    wl = fl
+                    ok = True
+        if wl is not None and isinstance(wl, ast.While):
             t = wl.test
             if isinstance(t, ast.Compare) and len(t.ops) == 1:
                 l, r = t.left, t.comparators[0]
@@ -293,7 +304,7 @@ def r_spawn_site(e, R):
                 maxw = isinstance(r, ast.Attribute) and r.attr == "_max_workers" and set(e.pt.ev(sf, r.value)) & a.executor_objs
                 ok = bool(lenp and maxw and isinstance(op, ast.Lt))
         R.check(ok, "R-SPAWN-SITE", f"{sf.short}: spawn loop guarded by len(table) < max_workers (strict)", sf.short,
-                f"while {norm(wl.test)}" if wl is not None else norm(n),
+                (f"while {norm(wl.test)}" if isinstance(wl, ast.While) else f"for ... in {norm(wl.iter)}") if wl is not None else norm(n),
                 "the spawn loop is not guarded by the strict comparison len(workers) < max_workers: the pool can exceed max_workers",
                 e.loc(sf, n))
         # one insertion per iteration, after start()
